@@ -100,6 +100,9 @@ def run(rep, tier, replay=None):
     run_, oks, errs = decode_paths(prog, 14)
     carriers_rule(rep, prog, oks)
     enum_rule(rep, prog, oks)
+    from .common import enum_tables_rule
+    enum_tables_rule(rep, prog, "R5", ["adsb_deku::adsb::EmergencyState", "adsb_deku::adsb::AircraftStatusType"],
+                     "emergency state and type-28 subtype: each variant is selected by exactly the codes DO-260B assigns to that meaning")
     return rep.finish(
         "From the decode model (GF(2) bit provenance through the per-bit extraction of DF5 and through the shared de-interleaver used by DF21 and "
         "type 28): each carrier's slice and the exact result-bit -> frame-bit permutation are compared with the Annex 10 order; the three carriers are "
